@@ -1,2 +1,269 @@
--- stub driver for C07: replaced when the property's model exists
-def main : IO Unit := pure ()
+import Snel.Model.Proto
+import Snel.Model.ColumnBlock
+import Snel.Model.Value
+import Snel.Model.ReturnProjection
+import Snel.Model.F64Parse
+open Snel Snel.Proto Snel.ColumnBlock Snel.Value
+
+/-! Line protocol of the C07 streams. Tokens are separated by blanks, sections by `|`.
+Value tokens — JSON: `n t f p<dec> m<dec> d<16hex> s<hex> c<hex>`; scalar:
+`n t f i<dec> T<dec> d<16hex> s<hex>`; cell: `n i<dec> u<dec> d<16hex> t f b<hex>`.
+Oracle tables (external functions evaluated by the harness on the real libraries):
+`F<16hex>=<hex>` f64::to_string, `J<hex>=<verdict>` serde_json::from_str. -/
+
+def hexNat? (s : String) : Option Nat :=
+  s.toList.foldlM (fun acc c => (hexVal c).map (acc * 16 + ·)) 0
+
+def hex16 (n : Nat) : String :=
+  String.ofList ((List.range 16).map fun i => hexDigit (n / 16 ^ (15 - i) % 16))
+
+def bytesToString? (b : List UInt8) : Option String := ofUtf8? b
+
+def unhexStr (s : String) : Option String := (unhex s).bind bytesToString?
+
+def hexStr (s : String) : String := hexOfBytes (utf8Bytes s)
+
+def splitSections (ws : List String) : List (List String) :=
+  let rec go (ws : List String) (cur : List String) (acc : List (List String)) : List (List String) :=
+    match ws with
+    | [] => (cur.reverse :: acc).reverse
+    | w :: rest => if w = "|" then go rest [] (cur.reverse :: acc) else go rest (w :: cur) acc
+  go ws [] []
+
+def tokSplit (tok : String) : Option (Char × String) :=
+  match tok.toList with
+  | [] => none
+  | c :: rest => some (c, String.ofList rest)
+
+def parseJson (tok : String) : Option Json := do
+  let (c, r) ← tokSplit tok
+  match c with
+  | 'n' => if r.isEmpty then some .null else none
+  | 't' => if r.isEmpty then some (.bool true) else none
+  | 'f' => if r.isEmpty then some (.bool false) else none
+  | 'p' => (r.toNat?).map fun u => .num (.pos u)
+  | 'm' => (r.toNat?).map fun u => .num (.neg u)
+  | 'd' => (hexNat? r).map fun b => .num (.flt b)
+  | 's' => (unhexStr r).map .str
+  | 'c' => (unhexStr r).map .nested
+  | _ => none
+
+def showJson : Json → String
+  | .null => "n"
+  | .bool true => "t"
+  | .bool false => "f"
+  | .num (.pos u) => s!"p{u}"
+  | .num (.neg m) => s!"m{m}"
+  | .num (.flt b) => "d" ++ hex16 b
+  | .str s => "s" ++ hexStr s
+  | .nested t => "c" ++ hexStr t
+
+def parseScalar (tok : String) : Option Scalar := do
+  let (c, r) ← tokSplit tok
+  match c with
+  | 'n' => if r.isEmpty then some .null else none
+  | 't' => if r.isEmpty then some (.bool true) else none
+  | 'f' => if r.isEmpty then some (.bool false) else none
+  | 'i' => (r.toInt?).map .int
+  | 'T' => (r.toInt?).map .ts
+  | 'd' => (hexNat? r).map .float
+  | 's' => (unhexStr r).map .utf8
+  | _ => none
+
+def showScalar : Scalar → String
+  | .null => "n"
+  | .bool true => "t"
+  | .bool false => "f"
+  | .int i => s!"i{i}"
+  | .ts i => s!"T{i}"
+  | .float b => "d" ++ hex16 b
+  | .utf8 s => "s" ++ hexStr s
+
+def showCell : Cell → String
+  | .null => "n"
+  | .i64 v => s!"i{v}"
+  | .u64 v => s!"u{v}"
+  | .f64 b => "d" ++ hex16 b
+  | .bool true => "t"
+  | .bool false => "f"
+  | .bytes b => "b" ++ hexOfBytes b
+
+def parseVerdict (s : String) : Option Verdict := do
+  let (c, r) ← tokSplit s
+  match c with
+  | 'c' => (unhexStr r).map .container
+  | 'p' => (r.toNat?).map fun u => .number (.pos u)
+  | 'm' => (r.toNat?).map fun u => .number (.neg u)
+  | 'd' => (hexNat? r).map fun b => .number (.flt b)
+  | 'o' => some .other
+  | 'x' => some .invalid
+  | _ => none
+
+structure Tables where
+  fmt : List (Nat × String) := []
+  json : List (String × Verdict) := []
+  bad : Bool := false
+
+def parseTables (toks : List String) : Tables :=
+  toks.foldl (fun t tok =>
+    match tokSplit tok with
+    | some ('F', r) =>
+      (match r.splitOn "=" with
+       | [a, b] => match hexNat? a, unhexStr b with
+         | some a, some b => { t with fmt := (a, b) :: t.fmt }
+         | _, _ => { t with bad := true }
+       | _ => { t with bad := true })
+    | some ('J', r) =>
+      (match r.splitOn "=" with
+       | [a, b] => match unhexStr a, parseVerdict b with
+         | some a, some b => { t with json := (a, b) :: t.json }
+         | _, _ => { t with bad := true }
+       | _ => { t with bad := true })
+    | _ => { t with bad := true }) {}
+
+/-- A string no table has: makes a missing oracle entry visible in the diff. -/
+def missFmt : String := "<oracle-miss>"
+
+def extOf (t : Tables) : Ext where
+  parseF64 := Snel.F64Parse.parseF64
+  fmtF64 := fun b => (t.fmt.lookup b).getD missFmt
+  jsonParse := fun s => (t.json.lookup s).getD (.container missFmt)
+
+def physOfCode? (s : String) : Option Phys :=
+  match s.toNat? with
+  | some n => if n ≤ 5 then some (Phys.ofCode n) else none
+  | none => none
+
+partial def parseFieldType (s : String) : Option FieldType :=
+  match s with
+  | "string" => some .string
+  | "u64" => some .u64
+  | "i64" => some .i64
+  | "f64" => some .f64
+  | "bool" => some .bool
+  | "timestamp" => some .timestamp
+  | "date" => some .date
+  | _ =>
+    match tokSplit s with
+    | some ('?', r) => (parseFieldType r).map .optional
+    | some ('e', r) => ((r.splitOn ",").mapM unhexStr).map .enum
+    | _ => none
+
+def blockAnswer (physTok : String) (vals : List String) (tabs : List String) : String :=
+  let t := parseTables tabs
+  match physOfCode? physTok, vals.mapM parseScalar with
+  | some phys, some scalars =>
+    if t.bad then "bad-op" else
+    let x := extOf t
+    let strs := scalars.map fun v => utf8Bytes (colString x v)
+    let block := encodeBlock x.parseF64 phys strs
+    let dec := match decodeBlock strs.length block with
+      | none => "none"
+      | some (p, cells) =>
+        s!"{p.code} " ++ " ".intercalate (cells.map showCell) ++ " # "
+          ++ " ".intercalate (cells.map fun c => showScalar (cellToScalar c))
+    hexOfBytes block ++ " " ++ dec
+  | _, _ => "bad-op"
+
+def decodeAnswer (rowsTok hexTok : String) : String :=
+  match rowsTok.toNat?, unhex hexTok with
+  | some rows, some bs =>
+    (match decodeBlock rows bs with
+     | none => "none"
+     | some (p, cells) => s!"{p.code} " ++ " ".intercalate (cells.map showCell))
+  | _, _ => "bad-op"
+
+def scalarAnswer (jt : String) (tabs : List String) : String :=
+  let t := parseTables tabs
+  match parseJson jt with
+  | some j =>
+    if t.bad then "bad-op" else
+    let x := extOf t
+    let v := ofJson j
+    let w := walTier v
+    " ".intercalate [showScalar v, showJson (toJson x v), showScalar w, showJson (toJson x w)]
+  | none => "bad-op"
+
+/-- `flush <k> <ft_1..ft_k> <n> <n·k json tokens or ->` : per event and field the rendered
+value on the four tiers `mem wal flushed compacted` (absent field: `-`). A field absent in
+the event is written as a null cell when any event of the zone carries it; the harness uses
+one zone per line and tells which fields are present in the zone through the values. -/
+def flushAnswer (args : List String) (tabs : List String) : String :=
+  let t := parseTables tabs
+  match args with
+  | kTok :: rest =>
+    (match kTok.toNat? with
+     | some k =>
+       (match (rest.take k).mapM parseFieldType, (rest.drop k) with
+        | some fts, nTok :: valToks =>
+          (match nTok.toNat? with
+           | some n =>
+             if t.bad || fts.length ≠ k || valToks.length ≠ n * k then "bad-op" else
+             let x := extOf t
+             let parsed : Option (List (Option Json)) :=
+               valToks.mapM fun tok => if tok = "-" then some none else (parseJson tok).map some
+             (match parsed with
+              | none => "bad-op"
+              | some vals =>
+                -- which columns exist in the zone: some event carries the field
+                let colPresent : List Bool := (List.range k).map fun c =>
+                  (List.range n).any fun r => ((vals[r * k + c]?).getD none).isSome
+                let cells := (List.range (n * k)).map fun idx =>
+                  let c := idx % k
+                  let ft := (fts[c]?).getD .string
+                  let phys := physOf ft
+                  match (vals[idx]?).getD none with
+                  | some j =>
+                    let v := ofJson j
+                    let m := showJson (toJson x (memTier v))
+                    let w := showJson (toJson x (walTier v))
+                    let f := showJson (toJson x (flushedTier x phys v))
+                    let cp := showJson (toJson x (compactedTier x phys v))
+                    s!"{m},{w},{f},{cp}"
+                  | none =>
+                    if (colPresent[c]?).getD false then
+                      let f := showJson (toJson x (flushedTier x phys .null))
+                      let cp := showJson (toJson x (compactedTier x phys .null))
+                      s!"-,-,{f},{cp}"
+                    else "-,-,-,-"
+                " ".intercalate cells)
+           | none => "bad-op")
+        | _, _ => "bad-op")
+     | none => "bad-op")
+  | _ => "bad-op"
+
+def namesOf (toks : List String) : Option (List String) := toks.mapM unhexStr
+
+def projectAnswer (secs0 : List (List String)) : String :=
+  let sorted := secs0.length = 4 && secs0[3]? = some ["sorted"]
+  let secs := if sorted then secs0.take 3 else secs0
+  match secs with
+  | [inp, ret, payload] =>
+    (match namesOf inp, namesOf payload with
+     | some inp, some payload =>
+       let ret? : Option (Option (List String)) :=
+         if ret = ["none"] then some none else (namesOf ret).map some
+       (match ret? with
+        | some ret =>
+          let idx := ReturnProjection.projection inp ret payload
+          let names := ReturnProjection.outNames inp idx
+          let names := if sorted then (names.toArray.qsort (· < ·)).toList else names
+          " ".intercalate (names.map hexStr)
+        | none => "bad-op")
+     | _, _ => "bad-op")
+  | _ => "bad-op"
+
+def answer (line : String) : String :=
+  match splitSections (words line) with
+  | ("block" :: phys :: vals) :: tabs => blockAnswer phys vals tabs.flatten
+  | ["decode", rows, bytes] :: [] => decodeAnswer rows bytes
+  | ["scalar", j] :: tabs => scalarAnswer j tabs.flatten
+  | ("flush" :: args) :: tabs => flushAnswer args tabs.flatten
+  | ("project" :: inp) :: rest => projectAnswer (inp :: rest)
+  | ["f64parse", h] :: [] =>
+    (match unhex h with
+     | some b => (match Snel.F64Parse.parseF64 b with | some bits => hex16 bits | none => "x")
+     | none => "bad-op")
+  | _ => "bad-op"
+
+def main : IO Unit := serve answer
